@@ -30,6 +30,7 @@ from .math import (
     clamp,
     is_affine_st,
     is_almost_int,
+    maybe_int,
     maybe_zero,
     resolution_from_affine,
     snap_affine,
@@ -372,6 +373,18 @@ class GeoBoxBase:
         if shape is None:
             if resolution is None:
                 raise ValueError("Have to supply shape or resolution")
+            if not self.linear:
+                # ``_affine`` of a non-linear geobox is a pixel-side view, not a world transform:
+                # scale the pixel grid by requested / current resolution (tolerance as in the
+                # tight snapping of the linear case)
+                res = res_(resolution)
+                cur = self.resolution
+                sx, sy = abs(res.x / cur.x), abs(res.y / cur.y)
+                ny, nx = (
+                    max(1, math.ceil(maybe_int(n / s, 0.01)))
+                    for n, s in zip(self._shape, (sy, sx))
+                )
+                return shape_((ny, nx)), self._affine * Affine.scale(sx, sy)
             new_geobox = GeoBox.from_bbox(
                 self.boundingbox, resolution=resolution, tight=True
             )
